@@ -3,6 +3,7 @@ package rag
 import (
 	"fmt"
 	"strings"
+	"unicode"
 	"unicode/utf8"
 )
 
@@ -551,10 +552,15 @@ func (sc *SizeCalculator) SplitToSize(text string, boundaries []Boundary) []stri
 		if chunk != "" {
 			chunks = append(chunks, chunk)
 		}
-		remaining = strings.TrimSpace(remaining[splitPos:])
+		rest := remaining[splitPos:]
+		remaining = strings.TrimSpace(rest)
 
-		// Update boundary positions for remaining text
-		boundaries = adjustBoundaryPositions(boundaries, splitPos)
+		// Update boundary positions for remaining text. The white space trimmed from
+		// the front of the rest is gone too; without counting it every later boundary
+		// pointed that many bytes too far - into the middle of a word, or of a
+		// multi-byte character.
+		lead := len(rest) - len(strings.TrimLeftFunc(rest, unicode.IsSpace))
+		boundaries = adjustBoundaryPositions(boundaries, splitPos+lead)
 	}
 
 	return chunks
